@@ -26,6 +26,7 @@ struct Real<T: Sample> {
     ws: WriteStream<T>,
     rs: ReadStream<T>,
     w: Option<BufferWriter<T>>,
+    w2: Option<BufferWriter<T>>,
     r: Option<(BufferReader<T>, Vec<Tag>)>,
     produced: u64,
     modulus: u64,
@@ -39,6 +40,7 @@ impl<T: Sample> Real<T> {
             ws,
             rs,
             w: None,
+            w2: None,
             r: None,
             produced: 0,
             modulus,
@@ -144,6 +146,35 @@ fn replay_path<T: Sample>(size: usize, steps: &[Value]) -> Result<usize, String>
                     Err(p) => return fail(format!("commit panicked: {p}")),
                 }
                 real.produced += n as u64;
+                check_state(&real)?;
+            }
+            "acqw2" => {
+                // a second write window while the first one is still held: the
+                // older one (real.w) becomes the stale one.
+                let w = match catch(|| real.ws.write_buf()) {
+                    Ok(Ok(w)) => w,
+                    Ok(Err(e)) => return fail(format!("second write_buf error {e}")),
+                    Err(p) => return fail(format!("second write_buf panic {p}")),
+                };
+                let (s, e) = w.verif_range();
+                let want = (to["wstale"][0].as_u64().unwrap() as usize, to["wstale"][1].as_u64().unwrap() as usize);
+                if (s, e - s) != want {
+                    return fail(format!("second write window ({s},{}) expected {want:?}", e - s));
+                }
+                real.w2 = real.w.take();
+                real.w = Some(w);
+                check_state(&real)?;
+            }
+            "dropstale" => {
+                real.w2 = None;
+                check_state(&real)?;
+            }
+            "stale_commit_refused" => {
+                let n = act["n"].as_u64().unwrap() as usize;
+                let w = real.w2.take().unwrap();
+                if catch(move || w.produce(n, &[])).is_ok() {
+                    return fail("commit through a stale window larger than the free space was accepted".to_string());
+                }
                 check_state(&real)?;
             }
             "commit0" => {
